@@ -815,7 +815,19 @@ def oracle_cs(case, obs):
                         'cs:undecodable'))
             return bad
         if back != text:
-            bad.append(('body decodes under %r to a text different from the original' % announced, 'cs:lossy'))
+            sig = 'cs:lossy'
+            try:
+                import codecs as _codecs
+                _enc = _codecs.getincrementalencoder(announced)()
+                _inc = b''.join(_enc.encode(c) for c in case['chunks'] if isinstance(c, str)) + _enc.encode('', True)
+                if text.encode(announced).decode(announced) != text or _inc.decode(announced) != text:
+                    # Python's own codec does not round-trip this text (idna applies nameprep: case folding, NFKC;
+                    # punycode's incremental encoder encodes every chunk on its own):
+                    # the tool announced a charset the client named and used the library's codec for it (finding F18f)
+                    sig = 'F18f:codec_itself_lossy'
+            except (LookupError, UnicodeError):
+                pass
+            bad.append(('body decodes under %r to a text different from the original' % announced, sig))
             return bad
         # preference (an empty text is representable in anything: nothing to prefer)
         if not text:
@@ -1262,7 +1274,12 @@ def gen_gz_case(rng, big=False):
 CHARSETS = ['utf-8', 'utf-8', 'UTF-8', 'utf8', 'iso-8859-1', 'iso-8859-1', 'ISO-8859-1', 'latin-1', 'us-ascii',
             'ascii', 'utf-16', 'utf-16le', 'utf-32', 'utf-7', 'cp1252', 'windows-1251', 'koi8-r', 'shift_jis',
             'gb2312', 'big5', 'euc-jp', 'iso-8859-5', 'iso-8859-7', 'iso-8859-15', 'x-mac-ce', 'bogus', '*', '*',
-            'utf-8-sig', 'gbk', 'cp437', 'Latin-1', 'unicode-1-1-utf-8']
+            'utf-8-sig', 'gbk', 'cp437', 'Latin-1', 'unicode-1-1-utf-8',
+            # names the codec registry knows that are NOT text encodings (str.encode refuses them with LookupError),
+            # a client may name any of them
+            'rot13', 'base64', 'hex', 'zlib', 'bz2', 'quopri', 'uu', 'rot_13', 'base_64', 'undefined']
+# (idna / punycode are text encodings for str.encode but no charsets: not injective / not chunk-wise - finding F18f,
+#  witness replayed on every run; they are not part of the random pool)
 ALPHABETS = [
     'abcdefghijklmnopqrstuvwxyz ABC012.,<>&\n',
     'abc \xe9\xe8\xfc\xf1\xdf\xa0\xff\xd7',
